@@ -91,7 +91,8 @@ LEVEL_TEXT = ('Machine-checked theorems for every cookie string, clock value (wh
               'callbacks: its headers are the last on the response (C09_explicit_callback_is_final).  End to end: '
               'C09_policy_end_to_end (constructed policy -> remember -> cookie -> unauthenticated_userid = the remembered typed user '
               'id inside the timeout, None after, never a raise) and C09_accepted_is_issued_or_collision (an accepted cookie with the '
-              'digest field of an issued ticket yields exactly the issued identity, or exhibits a collision of the keyed digest).  '
+              'digest field of an issued ticket yields exactly the issued identity, or exhibits a collision of the keyed digest); C09_returned_headers_attrs / C09_reissued_cookie_attrs (the attribute '
+              'clause from constructor keywords to every Set-Cookie of remember, forget and the reissue).  '
               'See harness/c09/NOTES.md.')
 LEVEL_NOTE = ('Trusted: Coq kernel; the translator\'s primitive table and control-flow rules (anything outside subset / table is '
               'a broken tie, never a guess); Python harness; hashlib/WebOb/Unicode-database behaviour taken as oracles; pins for '
